@@ -143,6 +143,11 @@ func ParseLine(s string) *Line {
 		}
 	}
 
+	if s == "" {
+		// nothing but tags
+		return nil
+	}
+
 	if s[0] == ':' {
 		// remove a source and parse it
 		if idx := strings.Index(s, " "); idx != -1 {
@@ -169,6 +174,10 @@ func ParseLine(s string) *Line {
 	} else {
 		args = strings.Fields(args[0])
 	}
+	if len(args) == 0 {
+		// no command
+		return nil
+	}
 	line.Cmd = strings.ToUpper(args[0])
 	if len(args) > 1 {
 		line.Args = args[1:]
@@ -178,6 +187,7 @@ func ParseLine(s string) *Line {
 	// separate events as opposed to forcing people to have gargantuan
 	// handlers to cope with the possibilities.
 	if (line.Cmd == PRIVMSG || line.Cmd == NOTICE) &&
+		len(line.Args) > 1 &&
 		len(line.Args[1]) > 2 &&
 		strings.HasPrefix(line.Args[1], "\001") &&
 		strings.HasSuffix(line.Args[1], "\001") {
